@@ -100,11 +100,81 @@ func ruleConstIndex(fileScope func(string) bool, ruleID string, min int) func(c 
 					c.OK(ruleID, key, ix.Pos(), "slice is built in this function with more than k elements")
 					return true
 				}
+				// the length is established by every caller of an unexported function
+				if body == d.Body {
+					if eiv, sites := callerLen(c, d, info, sk, sum); sites > 0 && !eiv.isTop() {
+						la2 := &lenAnalyzer{c: c, info: info, sum: sum, entry: lenState{sk: eiv}}
+						if iv2 := la2.analyze(body)(ix, sk); iv2.lo > k {
+							c.OK(ruleID, key, ix.Pos(), fmt.Sprintf("%s holds on every path to the index: established at every call site (%d) of the function", iv2.String(), sites))
+							return true
+						}
+					}
+				}
 				c.Bad(ruleID, key, ix.Pos(), fmt.Sprintf("index %d is not protected: only `%s` is known here; an input with a shorter slice panics (index out of range)", k, iv.String()))
 				return true
 			})
 		}
 	}
+}
+
+// callerLen: for a slice key rooted at a parameter of the unexported function d, the hull of what every call site in
+// the module knows about the corresponding argument; sites==0 when the function is exported, used as a value, or
+// some call site cannot be expressed.
+func callerLen(c *core.Ctx, d *ast.FuncDecl, info *types.Info, sk sliceKey, sum map[*types.Func][2]*lenIv) (lenIv, int) {
+	if d.Name.IsExported() || d.Recv != nil {
+		return topIv(), 0
+	}
+	pi := -1
+	for i, po := range paramObjs(info, d) {
+		if po != nil && po == sk.root {
+			pi = i
+		}
+	}
+	me, _ := info.Defs[d.Name].(*types.Func)
+	if pi < 0 || me == nil {
+		return topIv(), 0
+	}
+	var hull lenIv
+	sites := 0
+	for _, od := range c.AllDecls() {
+		if od.Body == nil || c.DeclPkg(od) == nil {
+			continue
+		}
+		for _, r := range c.Refs(od) {
+			if r.Origin() == me {
+				return topIv(), 0
+			}
+		}
+		var q func(ast.Node, sliceKey) lenIv
+		oinfo := c.DeclPkg(od).TypesInfo
+		for _, cs := range c.Calls(od) {
+			if cs.Callee == nil || cs.Callee.Origin() != me {
+				continue
+			}
+			if pi >= len(cs.Call.Args) || innermostBody(od, cs.Call) != od.Body {
+				return topIv(), 0
+			}
+			ak, ok := keyOf(oinfo, cs.Call.Args[pi])
+			if !ok {
+				return topIv(), 0
+			}
+			ak.path = normPath(ak.path + sk.path)
+			if q == nil {
+				q = (&lenAnalyzer{c: c, info: oinfo, sum: sum}).analyze(od.Body)
+			}
+			iv := q(cs.Call, ak)
+			if sites == 0 {
+				hull = iv
+			} else {
+				hull = hull.join(iv)
+			}
+			sites++
+		}
+	}
+	if sites == 0 {
+		return topIv(), 0
+	}
+	return hull, sites
 }
 
 // defLen: if the root variable of sk is assigned exactly once in body from a composite
@@ -453,7 +523,14 @@ func callersPassMapping(c *core.Ctx, d *ast.FuncDecl, po types.Object) (bool, st
 // panic) and (b) a dominating upper bound (a huge n exhausts memory).
 // ---------------------------------------------------------------------------
 
+// structuralBody: the function body in which explaining locals of a size expression are looked up.
+var structuralBody ast.Node
+
 func sizeIsStructural(info *types.Info, e ast.Expr) bool {
+	return sizeIsStructuralDepth(info, e, 0)
+}
+
+func sizeIsStructuralDepth(info *types.Info, e ast.Expr, depth int) bool {
 	ok := true
 	ast.Inspect(e, func(n ast.Node) bool {
 		switch x := n.(type) {
@@ -466,9 +543,42 @@ func sizeIsStructural(info *types.Info, e ast.Expr) bool {
 			if tv, f := info.Types[x]; f && tv.Value != nil {
 				return true
 			}
-			if _, isConst := info.Uses[x].(*types.Const); !isConst {
-				ok = false
+			if _, isConst := info.Uses[x].(*types.Const); isConst {
+				return true
 			}
+			// an explaining local: defined exactly once in the function, from a structural expression (`n := len(xs)`)
+			if v, isVar := info.Uses[x].(*types.Var); isVar && structuralBody != nil && depth < 3 {
+				var rhs []ast.Expr
+				ast.Inspect(structuralBody, func(m ast.Node) bool {
+					switch s := m.(type) {
+					case *ast.AssignStmt:
+						for i, l := range s.Lhs {
+							if id, isId := ast.Unparen(l).(*ast.Ident); isId && info.ObjectOf(id) == v {
+								if len(s.Rhs) == len(s.Lhs) {
+									rhs = append(rhs, s.Rhs[i])
+								} else {
+									rhs = append(rhs, nil)
+								}
+							}
+						}
+					case *ast.IncDecStmt:
+						if id, isId := ast.Unparen(s.X).(*ast.Ident); isId && info.ObjectOf(id) == v {
+							rhs = append(rhs, nil)
+						}
+					case *ast.RangeStmt:
+						for _, l := range []ast.Expr{s.Key, s.Value} {
+							if id, isId := l.(*ast.Ident); isId && info.ObjectOf(id) == v {
+								rhs = append(rhs, nil)
+							}
+						}
+					}
+					return true
+				})
+				if len(rhs) == 1 && rhs[0] != nil && sizeIsStructuralDepth(info, rhs[0], depth+1) {
+					return true
+				}
+			}
+			ok = false
 		}
 		return true
 	})
@@ -485,6 +595,7 @@ func ruleMakeBounds(c *core.Ctx) {
 		p := c.DeclPkg(d)
 		info := p.TypesInfo
 		var fc *core.FuncCFG
+		structuralBody = d.Body
 		ast.Inspect(d.Body, func(n ast.Node) bool {
 			ce, ok := n.(*ast.CallExpr)
 			if !ok || len(ce.Args) < 2 {
